@@ -970,7 +970,7 @@ def s_hints(g, h, tier):
         for k in ("+", "*", "cat", "merge", "max", "min", "and", "or", "if", "missing", "==", "-", "var", "substr", "<", "in", "!", "missing_some", "map", "reduce", "all", "log"):
             out.append(app({k: ones}, {"1": 1}))
         if m >= 2:
-            out += [app({"+": [0.1] * m}, None), app({"*": [1.0000000000000002] * min(m, 2000)}, None), app({"cat": ["é"] * m}, None), app({"and": [1] * (m - 1) + [0]}, None),
+            out += [app({"+": [0.1] * min(m, 3000)}, None), app({"*": [1.0000000000000002] * min(m, 2000)}, None), app({"cat": ["é"] * m}, None), app({"and": [1] * (m - 1) + [0]}, None),
                     app({"or": [0] * (m - 1) + ["t"]}, None), app({"if": [0, "x"] * (m // 2) + ["e"]}, None), app({"max": list(range(m))}, None), app({"merge": [[i, [i]] for i in range(min(m, 5000))]}, None)]
         # collections of that length, look-alike elements at the end
         coll = ([0] * max(0, m - len(alike)) + alike)[:m] if m >= 1 else []
